@@ -237,6 +237,37 @@ def _only_called_from_feature_arms(fu, fu_hir, d):
     return bool(total) and all(total)
 
 
+def _judge_pair(ife):
+    """('twin', accessor) | ('affine', None) | ('bad', why) for the unchecked (then) and checked (else) version of one access"""
+    then_ = _unwrap_block(ife['then'])
+    else_ = _unwrap_block(ife['else']) if ife.get('else') else None
+    t_inner = None
+    if then_.get('e') == 'block' and then_.get('unsafe') and not then_['stmts']:
+        t_inner = _unwrap_block(then_['expr'])
+    elif then_.get('e') == 'mcall':
+        t_inner = then_
+    why = ''
+    if t_inner and t_inner.get('e') == 'mcall' and t_inner['name'] in ('get_unchecked', 'get_unchecked_mut') and else_ is not None:
+        mut = t_inner['name'].endswith('_mut')
+        recv = _strip_autoref(t_inner['recv'])
+        idx = t_inner['args'][0]
+        if else_.get('e') == 'addr' and else_['a'].get('e') == 'index':
+            if else_['mut'] != mut:
+                why = 'mutability of the two arms differs'
+            elif _canon_hir(_strip_autoref(else_['a']['base'])) != _canon_hir(recv):
+                why = 'the two arms access different containers'
+            elif _canon_hir(else_['a']['idx']) != _canon_hir(idx):
+                why = 'the two arms use different index expressions'
+            else:
+                return 'twin', t_inner['name']
+        else:
+            why = 'the checked arm is not `&base[index]`'
+    res = affine_equiv(ife)
+    if res is True:
+        return 'affine', None
+    return 'bad', 'neither a checked/unchecked twin (%s) nor affine-equivalent block moves (%s)' % (why or 'shape', res)
+
+
 def s20_unsafe_twins(ctx):
     fd = ctx.facts('default')
     fu = ctx.facts('unsafe')
@@ -331,42 +362,16 @@ def s20_unsafe_twins(ctx):
                 r.violate('diamond|%s|selector-off-in-feature-build' % d, 'a cfg! selector of %s is false in the unsafe_performance build: the '
                           'arms are swapped with respect to the feature' % d, h['file'], ife.get('l'))
                 continue
-            then_ = _unwrap_block(ife['then'])
-            else_ = _unwrap_block(ife['else']) if ife.get('else') else None
-            t_inner = None
-            if then_.get('e') == 'block' and then_.get('unsafe') and not then_['stmts']:
-                t_inner = _unwrap_block(then_['expr'])
-            elif then_.get('e') == 'mcall':
-                t_inner = then_
-            ok = False
-            why = ''
-            if t_inner and t_inner.get('e') == 'mcall' and t_inner['name'] in ('get_unchecked', 'get_unchecked_mut') and else_ is not None:
-                mut = t_inner['name'].endswith('_mut')
-                recv = _strip_autoref(t_inner['recv'])
-                idx = t_inner['args'][0]
-                if else_.get('e') == 'addr' and else_['a'].get('e') == 'index':
-                    if else_['mut'] != mut:
-                        why = 'mutability of the two arms differs'
-                    elif _canon_hir(_strip_autoref(else_['a']['base'])) != _canon_hir(recv):
-                        why = 'the two arms access different containers'
-                    elif _canon_hir(else_['a']['idx']) != _canon_hir(idx):
-                        why = 'the two arms use different index expressions'
-                    else:
-                        ok = True
-                else:
-                    why = 'the checked arm is not `&base[index]`'
-                if ok:
-                    r.sample({'fn': d, 'twin': '%s(%s) / checked index' % (t_inner['name'], 'same base, same index'), 'line': ife.get('l')})
-                    r.inst('twin|%s@%s' % (d, ife.get('l')))
-                    continue
-            # not a simple twin: affine move-equivalence (SMM::next)
-            res = affine_equiv(ife)
+            verdict, detail = _judge_pair(ife)
+            if verdict == 'twin':
+                r.sample({'fn': d, 'twin': '%s(%s) / checked index' % (detail, 'same base, same index'), 'line': ife.get('l')})
+                r.inst('twin|%s@%s' % (d, ife.get('l')))
+                continue
             r.inst('affine|%s@%s' % (d, ife.get('l')))
-            if res is True:
+            if verdict == 'affine':
                 r.sample({'fn': d, 'twin': 'affine block-move equivalence (both orderings) + same store', 'line': ife.get('l')})
             else:
-                r.violate('diamond|%s|not-twin' % d, 'the arms of the unsafe_performance diamond in %s are neither a checked/unchecked twin (%s) '
-                          'nor affine-equivalent block moves (%s)' % (d, why or 'shape', res), h['file'], ife.get('l'))
+                r.violate('diamond|%s|not-twin' % d, 'the arms of the unsafe_performance diamond in %s are %s' % (d, detail), h['file'], ife.get('l'))
     # ---- twin helpers
     for d in twin_helpers:
         r.inst('twin-helper|' + d)
@@ -377,18 +382,14 @@ def s20_unsafe_twins(ctx):
         su, sd = fu.fns[d]['sig'], fd.fns[d]['sig']
         if su != sd:
             r.violate('twin-helper|%s|signature' % d, 'the two cfg-selected definitions of %s have different signatures' % d, hu['file'], hu['line'])
-        bu = _unwrap_block(hu['body'])
-        bd = _unwrap_block(hd['body'])
-        if bu.get('e') == 'block' and bu.get('unsafe'):
-            bu = _unwrap_block(bu['expr'])
-        ok = (bu.get('e') == 'mcall' and bu['name'] in ('get_unchecked', 'get_unchecked_mut') and bd.get('e') == 'addr' and bd['a'].get('e') == 'index'
-              and bd['mut'] == bu['name'].endswith('_mut')
-              and _canon_hir(_strip_autoref(bu['recv'])) == _canon_hir(_strip_autoref(bd['a']['base'])) and _canon_hir(bu['args'][0]) == _canon_hir(bd['a']['idx'])
-              and _strip_autoref(bu['recv']).get('res') == 'local')
-        if not ok:
-            r.violate('twin-helper|%s|not-twin' % d, 'the two definitions of %s are not `get_unchecked(slice,index)` vs `&slice[index]` on their own parameters' % d, hu['file'], hu['line'])
+        # the two definitions are the two arms of a diamond whose selector is the #[cfg] attribute
+        verdict, detail = _judge_pair({'e': 'if', 'then': hu['body'], 'else': hd['body'], 'l': hu.get('line')})
+        if verdict == 'bad':
+            r.violate('twin-helper|%s|not-twin' % d, 'the two cfg-selected definitions of %s are %s' % (d, detail), hu['file'], hu['line'])
+        elif verdict == 'twin':
+            r.sample({'fn': d, 'twin': 'feature-selected helper: %s(slice,index) / &slice[index]' % detail})
         else:
-            r.sample({'fn': d, 'twin': 'feature-selected helper: get_unchecked(slice,index) / &slice[index]'})
+            r.sample({'fn': d, 'twin': 'feature-selected helper: affine block-move equivalence (both orderings) + same store'})
     # every flipped selector must be the condition of an examined diamond
     for k, fl in flipped.items():
         if not fu.bodies[k]['generic']:
@@ -407,7 +408,7 @@ def s20_unsafe_twins(ctx):
     n_text = _textual_unsafe_blocks()
     r.floor('unsafe blocks (= `unsafe {` in the source text)', n_text, n_unsafe)
     r.floor('unsafe blocks', 3, n_unsafe)
-    r.floor('diamonds', 2, n_diamonds)
+    r.floor('diamonds and feature-selected twin definitions', 2, n_diamonds + len(twin_helpers))
     r.floor('bodies compared', 1500, len(ids_d & ids_u))
     r.info.update({'unsafe_blocks': n_unsafe, 'diamonds': n_diamonds, 'twin_helpers': twin_helpers})
     return r
